@@ -296,7 +296,7 @@ var StructTypes = []reflect.Type{
 	T(CN1{}), T(CN2{}), T(NMapHolder{}),
 	T(ManyF{}), T(ManyL{}),
 	T(Node{}), T(FNode{}), T(Ping{}), T(Pong{}), T(ENode{}), T(DeepNil{}),
-	T(MapAndLists{}), T(Wrap{}), T(WrapList{}), T(PtrTime{}), T(Named{}), T(SelfAny{}), T(SelfAnyList{}), T(PtrConts{}), T(MutA{}), T(MutB{}), T(MpKeyStruct{}), T(MutGraph{}), T(NonASCII{}), T(RecConts{}), T(AmpTop{}), T(AmpN{}), T(FloatMix{}), T(Forest{}), T(CaseTwins{}), T(Bags{}), T(PtrNamed{}), T(NonASCIIFirst{}), T(IntMix{}), T(Empty{}), T(NumMaps{}), T(BaseEnt{}), T(PlainEnt{}), T(AccountEnt{}), T(PtrBaseEnt{}), T(Ents{}), T(NamedLists{}), T(StrMix{}), T(TimeMix{}), T(Color{}),
+	T(MapAndLists{}), T(Wrap{}), T(WrapList{}), T(PtrTime{}), T(Named{}), T(SelfAny{}), T(SelfAnyList{}), T(PtrConts{}), T(MutA{}), T(MutB{}), T(MpKeyStruct{}), T(MutGraph{}), T(NonASCII{}), T(RecConts{}), T(AmpTop{}), T(AmpN{}), T(FloatMix{}), T(Forest{}), T(CaseTwins{}), T(Bags{}), T(PtrNamed{}), T(NonASCIIFirst{}), T(IntMix{}), T(Empty{}), T(NumMaps{}), T(BaseEnt{}), T(PlainEnt{}), T(AccountEnt{}), T(PtrBaseEnt{}), T(Ents{}), T(NamedLists{}), T(StrMix{}), T(TimeMix{}), T(Color{}), T(Pair{}), T(Envelope{}),
 }
 
 // TypeByName finds a zoo struct type.
@@ -751,6 +751,16 @@ type Forest struct {
 // AmpTop / AmpN: every element of a list refers back to the list (queued destinations).
 type AmpTop struct{ L []*AmpN }
 type AmpN struct{ R []interface{} }
+
+// Pair: runs of fields of one declared type from each of which interface slots are reachable.
+type Envelope struct{ Body []interface{} }
+
+type Pair struct {
+	Left, Right   *SelfAny
+	Args, Extras  []interface{}
+	Req, Resp     Envelope
+	First, Second map[string]interface{}
+}
 
 // Color: the shape of a Java enum constant on the wire (one field, "name").
 type Color struct{ Name string }
